@@ -697,6 +697,15 @@ def check_infinity_sign(r, repo, rule="R13.7"):
 
 
 
+def _ancestors_of(node):
+    out = []
+    n = getattr(node, "_parent", None)
+    while n is not None:
+        out.append(n)
+        n = getattr(n, "_parent", None)
+    return out
+
+
 def check_signed_zero_string(r, repo, rule="R13.8"):
     """The binary significand/exponent string can spell a negative zero, so the round trip float -> string -> float has to keep
     it (the property exempts only the fraction, which cannot).  float2bin: a return that spells zero must distinguish the sign
@@ -714,13 +723,29 @@ def check_signed_zero_string(r, repo, rule="R13.8"):
             owner = getattr(owner, "_parent", None)
         if owner is not f2b:
             continue
-        if any(isinstance(x, (ast.JoinedStr, ast.FormattedValue)) for x in ast.walk(ret.value)):
+        fstr = isinstance(ret.value, ast.JoinedStr)
+        if not fstr and any(isinstance(x, (ast.JoinedStr, ast.FormattedValue)) for x in ast.walk(ret.value)):
             continue
-        consts = [x.value for x in ast.walk(ret.value) if isinstance(x, ast.Constant) and isinstance(x.value, str)]
+        if fstr:
+            # f"{sign}0": a prefix that is computed elsewhere, followed by the digits of zero
+            text = "".join(x.value for x in ret.value.values if isinstance(x, ast.Constant))
+            consts = [text] if _re.fullmatch(r"0(\.0*)?", text) and any(isinstance(x, ast.FormattedValue) for x in ret.value.values) else []
+        else:
+            consts = [x.value for x in ast.walk(ret.value) if isinstance(x, ast.Constant) and isinstance(x.value, str)]
         if not consts or not all(_re.fullmatch(r"[-+]?0(\.0*)?", c) for c in consts):
             continue
         n_zero += 1
-        sees_sign = any(isinstance(c, ast.Call) and (dotted(c.func) or "").split(".")[-1] in ("signbit", "copysign") and any(dotted(a) == par for a in c.args) for c in ast.walk(ret.value))
+        # names the returned text is built from, with the locals that define them (a `sign` prefix set by comparisons is blind)
+        from sa.core import inline_locals
+        rv = inline_locals(ret.value, f2b)
+        sees_sign = any(isinstance(c, ast.Call) and (dotted(c.func) or "").split(".")[-1] in ("signbit", "copysign") and any(dotted(a) == par for a in c.args) for c in ast.walk(rv))
+        if fstr and not sees_sign:
+            # a prefix local with several definitions: every definition must come from a test of the sign bit
+            for fv in [x for x in ret.value.values if isinstance(x, ast.FormattedValue) and isinstance(x.value, ast.Name)]:
+                defs_ = [st for st in ast.walk(f2b) if isinstance(st, ast.Assign) and any(isinstance(t_, ast.Name) and t_.id == fv.value.id for t_ in st.targets)]
+                under_signbit = defs_ and all(any(isinstance(anc_, ast.If) and any(isinstance(c, ast.Call) and (dotted(c.func) or "").split(".")[-1] in ("signbit", "copysign") for c in ast.walk(anc_.test))
+                                                   for anc_ in _ancestors_of(st)) for st in defs_)
+                sees_sign = sees_sign or bool(under_signbit)
         if not sees_sign:
             # or the return is reached under a test of the sign bit
             node = ret
